@@ -1,6 +1,7 @@
 package props
 
 import (
+	"context"
 	"fmt"
 	"sort"
 	"strings"
@@ -15,6 +16,8 @@ import (
 )
 
 // C08 — entity events: exactly once per committed change, none for undone work.
+
+type c08CtxKey struct{}
 
 func c08Cfg(extended, second bool) kit.WorldCfg {
 	cfg := kit.WorldCfg{
@@ -82,19 +85,24 @@ func expectedEvents(m *kit.Model, tx kit.TxSpec) (evs []kit.Event, commits bool,
 				ignoreKidIDs[cc.Name+"|"+op.ID] = true
 			}
 		}
-		for _, style := range append(append([]string{}, kit.ListenerStyles...), "listener-async") {
+		styles := append(append(append([]string{}, kit.ListenerStyles...), "listener-async"), kit.MultiStyles...)
+		for _, style := range styles {
 			info := kit.MEntInfo(ent, "")
-			if style == "id-listener" {
+			if strings.HasPrefix(style, "id-listener") {
 				info = ""
 			}
-			evs = append(evs, kit.Event{Store: "things", Style: style, Type: typ, ID: op.ID, Info: info})
+			styleTyp := typ
+			if strings.HasSuffix(style, "-multi") {
+				styleTyp = "?" // one registration for all change types: the callback does not learn the type
+			}
+			evs = append(evs, kit.Event{Store: "things", Style: style, Type: styleTyp, ID: op.ID, Info: info})
 			for _, cc := range m.Cfg.Children {
 				if _, isKid := ent.Kid[cc.Name]; isKid {
 					kinfo := kit.MEntInfo(ent, cc.Name)
-					if style == "id-listener" {
+					if strings.HasPrefix(style, "id-listener") {
 						kinfo = ""
 					}
-					evs = append(evs, kit.Event{Store: cc.Name, Style: style, Type: typ, ID: op.ID, Info: kinfo})
+					evs = append(evs, kit.Event{Store: cc.Name, Style: style, Type: styleTyp, ID: op.ID, Info: kinfo})
 				}
 			}
 		}
@@ -132,7 +140,7 @@ func runC08(h kit.History) kit.Result {
 	multiOp, rollbackAfterWork, otherRoute := false, false, false
 	for i, tx := range h.Txs {
 		want, commits, ignoreKid := expectedEvents(m, tx)
-		var commitActions, earlyActions atomic.Int32
+		var commitActions, earlyActions, derivedActions atomic.Int32
 		rec.Committed.Store(false)
 		rec.Drain()
 		out := kit.RunTxHooks(w, m, tx, func(ctx boltz.MutateContext) {
@@ -142,6 +150,10 @@ func runC08(h kit.History) kit.Result {
 			rec.Committed.Store(false)
 			ctx.Tx().OnCommit(func() { rec.Committed.Store(true) })
 			ctx.AddCommitAction(func() { commitActions.Add(1) })
+			// a context derived with UpdateContext (callers attach request values this way) is the same transaction:
+			// a commit action registered through it runs like any other
+			derived := ctx.UpdateContext(func(c context.Context) context.Context { return context.WithValue(c, c08CtxKey{}, "v") })
+			derived.AddCommitAction(func() { derivedActions.Add(1) })
 		})
 		if out.Violation != nil {
 			res.Err = fmt.Errorf("transaction %d: %v\nhistory:\n%s", i, out.Violation, h)
@@ -159,7 +171,7 @@ func runC08(h kit.History) kit.Result {
 		// commit actions run on their own goroutine: wait for the latch (10 s ceiling)
 		if out.Committed {
 			latch := time.Now().Add(10 * time.Second)
-			for (commitActions.Load() == 0 || earlyActions.Load() == 0) && time.Now().Before(latch) {
+			for (commitActions.Load() == 0 || earlyActions.Load() == 0 || derivedActions.Load() == 0) && time.Now().Before(latch) {
 				time.Sleep(50 * time.Microsecond)
 			}
 		}
@@ -242,6 +254,10 @@ func runC08(h kit.History) kit.Result {
 		if n := commitActions.Load(); tx.Batch && (out.Committed && n < 1 || !out.Committed && n != 0) {
 			// Db.Batch may invoke the function twice, registering the in-transaction action twice
 			res.Err = fmt.Errorf("%s: commit action ran %d times for a Db.Batch transaction (committed=%v)\nhistory:\n%s", label, n, out.Committed, h)
+			return res
+		}
+		if n := derivedActions.Load(); !tx.Batch && n != wantActions || tx.Batch && (out.Committed && n < 1 || !out.Committed && n != 0) {
+			res.Err = fmt.Errorf("%s: the commit action registered through a context derived with UpdateContext ran %d times (committed=%v)\nhistory:\n%s", label, n, out.Committed, h)
 			return res
 		}
 		if n := earlyActions.Load(); n != wantActions {
